@@ -40,7 +40,7 @@ REQUIRED = {
         "exodus_tri3": 5, "exodus_tri6": 5, "exodus_unnamed_sets": 3, "exodus_named_sets": 3, "exodus_no_elem_map": 3, "exodus_elem_map": 3,
         "exodus_multi_block": 5, "exodus_tri6_midside_checked": 100, "read_members_compared": 200, "json_files": 5,
         "structured_meshes": 10, "scale_tiny_meshes": 20, "scale_large_meshes": 20, "scale_mid_meshes": 20, "offset_meshes": 15,
-        "class:structured": 5, "merge_operand_checked_numpy_backed": 20, "exodus_files_with_10_or_more_nodesets": 4, "exodus_files_with_10_or_more_sidesets": 4, "edges_meshes_over_1365_triangles": 2, "edges_gapped_node_numbering": 10, "merge_repeated_with_same_operands": 10, "class:elevate": 5, "class:edges": 5, "class:combine": 5, "class:exodus": 5, "class:json": 3,
+        "class:structured": 5, "merge_operand_checked_numpy_backed": 20, "exodus_files_with_10_or_more_nodesets": 4, "exodus_files_with_10_or_more_sidesets": 4, "edges_meshes_over_1365_triangles": 2, "edges_gapped_node_numbering": 10, "edges_tiny_tables": 60, "merge_repeated_with_same_operands": 10, "class:elevate": 5, "class:edges": 5, "class:combine": 5, "class:exodus": 5, "class:json": 3,
     },
 }
 WATCHDOG_S = {"quick": 1800, "thorough": 4 * 3600}
@@ -298,6 +298,51 @@ def run_edges(case, res, rng):
     from vlib.oracles import c13_validate as V
     jnp = _jnp()
     i = case["i"]
+    if i % 8 == 5:
+        # tiny meshes (2..~40 triangles) under many node renumberings: the smallest admissible tables (the single-cell 2x2 mesh
+        # first, as generated) and every way small node ids can sit next to the largest one
+        from scipy.spatial import Delaunay
+        subs = []
+        m = Mesh.construct_structured_mesh(2, 2, [0.0, 1.0], [0.0, 1.0])
+        subs.append((onp.asarray(m.coords), onp.asarray(m.conns), "tiny structured 2x2 as generated"))
+        for j in range(14):
+            if j % 2 == 0:
+                nx, ny = [(2, 2), (2, 3), (3, 2), (3, 3), (4, 3), (3, 4), (4, 4)][int(rng.integers(7))]
+                m = Mesh.construct_structured_mesh(nx, ny, [0.0, 1.0], [0.0, 1.0])
+                p0, t0 = onp.asarray(m.coords), onp.asarray(m.conns)
+                tg = "tiny structured %dx%d" % (nx, ny)
+            else:
+                npt = int(rng.integers(4, 22))
+                p0 = rng.random((npt, 2))
+                t0 = Delaunay(p0).simplices.astype(int)
+                a, b, c = p0[t0[:, 0]], p0[t0[:, 1]], p0[t0[:, 2]]
+                area = 0.5 * ((b[:, 0] - a[:, 0]) * (c[:, 1] - a[:, 1]) - (b[:, 1] - a[:, 1]) * (c[:, 0] - a[:, 0]))
+                t0 = onp.where((area < 0)[:, None], t0[:, [0, 2, 1]], t0)
+                t0 = t0[onp.abs(area) > 1e-9]
+                used = onp.unique(t0)
+                if len(t0) < 1 or len(used) != npt:
+                    continue
+                tg = "tiny delaunay %d points" % npt
+            if j >= 2 or j % 2:
+                perm = rng.permutation(len(p0))
+                p1 = onp.empty_like(p0)
+                p1[perm] = p0
+                t1 = perm[t0]
+                t1 = t1[rng.permutation(len(t1))]
+                t1 = onp.array([onp.roll(r, int(k)) for r, k in zip(t1, rng.integers(0, 3, size=len(t1)))])
+                tg += " renumbered"
+            else:
+                p1, t1 = p0, t0
+            subs.append((p1, t1, tg))
+        for k, (p1, t1, tg) in enumerate(subs):
+            conns = jnp.array(t1) if (i + k) % 2 == 0 else onp.array(t1)
+            ec_et = _call(res, "edges", Mesh.create_edges, conns)
+            if ec_et is None:
+                return
+            V.check_edge_table(res, p1, t1, ec_et[0], ec_et[1], tg)
+            res.count("edges_tiny_tables")
+        res.nontrivial = True
+        return
     if i % 16 == 7:
         nx, ny = [(30, 26), (41, 35), (55, 52), (28, 27)][(i // 16) % 4]      # 1450 / 2720 / 5508 / 1404 triangles
         m = Mesh.construct_structured_mesh(nx, ny, [0.0, 1.0], [0.0, float(rng.uniform(0.3, 2))])
